@@ -1,6 +1,8 @@
 import MicroHttp.Props.C11
+import MicroHttp.Props.Tables
 #print axioms MicroHttp.C11.reset_after_error
 #print axioms MicroHttp.C11.read_depends_on_parser_only
 #print axioms MicroHttp.C11.after_error_like_new
 #print axioms MicroHttp.C11.rejected_request_dropped
 #print axioms MicroHttp.C11.server_yields_nothing_on_error
+#print axioms MicroHttp.Tables.no_shared_state
